@@ -377,6 +377,12 @@ def match_known(prop, case, known):
 # the run
 
 def run_check(prop, tier, seed, replay=None):
+    # two runs of the same property share work/Cnn: serialize them
+    with Lock(os.path.join(OUT, "work", "%s.run.lock" % prop.id)):
+        return _run_check(prop, tier, seed, replay)
+
+
+def _run_check(prop, tier, seed, replay=None):
     t0 = time.time()
     work = os.path.join(OUT, "work", prop.id)
     os.makedirs(work, exist_ok=True)
@@ -559,7 +565,7 @@ def run_check(prop, tier, seed, replay=None):
         "checker_cmd": "make -C coq %s   # coqc 8.16.1 full .vo build; Print Assumptions under every property theorem" % " ".join(targets),
         "trusted_base": prop.trusted_base,
         "theorem_files": srcs,
-        "property_theorems": [n for n in names if n.startswith(prop.id + "_")],
+        "property_theorems": [n for n in names if n.startswith(tuple(getattr(prop, "theorem_prefixes", (prop.id + "_",))))],
         "guards_regenerated_from_source": [m["name"] for m in gen["matched"] if prop.gen_relevant(m["name"])],
         "evaluations": len(cases),
         "traces_validated_against_impl": len(cases),
